@@ -15,6 +15,16 @@ CHECKS = {
               'and pair relations (monotone, marginal bound, QSS==MFJ). Exhaustive below 100000 in the thorough tier; sampled above.'),
         note='Trusted: data/brackets.json (typed from Rev. Proc. 2020-45/2021-45/2022-38), the IRS row layout and half-up rounding rule, CPython Fractions.',
         design='3/C07'),
+    'C10': dict(
+        category='exploration',
+        technique='per-line fuzzing of every line definition on catalogue-typed mock stores (Hypothesis draws per read) with a catalogue-membership oracle and exception bucketing',
+        text=('Every line of every form instance of all three years is evaluated in isolation many times on mock stores whose reads are '
+              'resolved against the same year\'s catalogue and answered with draws of the declared type, so rare branches are driven without '
+              'needing a whole return that reaches them; any unresolved name, AttributeError/NameError/RecursionError/assertion/KeyError is a '
+              'violation; forms referenced but not catalogued must make the real solver abort with "not supported". Saved cases of repaired '
+              'defects are replayed on every run. Random search: a path needing a value the mock alphabets never draw is missed.'),
+        note='Trusted: catalogue introspection (hx/catalog.py), the mock alphabets (hx/mock.py), data/absent_forms.json (reviewed deliberately-absent forms).',
+        design='3/C10'),
 }
 
 NOT_YET = {
